@@ -3,3 +3,4 @@ pub mod prefix;
 pub mod addr;
 pub mod bank;
 pub mod builder;
+pub mod tree;
